@@ -5,6 +5,10 @@ let negb = function
 | true -> false
 | false -> true
 
+type nat =
+| O
+| S of nat
+
 type ('a, 'b) sum =
 | Inl of 'a
 | Inr of 'b
@@ -25,6 +29,27 @@ let rec app l m =
   match l with
   | [] -> m
   | a :: l1 -> a :: (app l1 m)
+
+(** val add : nat -> nat -> nat **)
+
+let rec add n0 m =
+  match n0 with
+  | O -> m
+  | S p -> S (add p m)
+
+type positive =
+| XI of positive
+| XO of positive
+| XH
+
+type n =
+| N0
+| Npos of positive
+
+type z =
+| Z0
+| Zpos of positive
+| Zneg of positive
 
 (** val eqb : bool -> bool -> bool **)
 
@@ -571,3 +596,15 @@ let all_cfgs =
               map (fun x -> { arg = k; ty = t; deref = d; fname = f; recur =
                 r; ver = v; excl = x }) all_bools) all_verifies) all_bools)
           all_bools) all_bools) all_types) all_kinds
+
+(** val nondefault : cfg -> nat **)
+
+let nondefault c =
+  add
+    (add
+      (add
+        (add
+          (add (if otype_eqb c.ty TAuto then O else S O)
+            (if c.deref then O else S O)) (if c.fname then O else S O))
+        (if c.recur then S O else O)) (if has_verify c then S O else O))
+    (if c.excl then S O else O)
